@@ -820,3 +820,82 @@ mod tests {
         }
     }
 }
+
+#[cfg(feature = "verif-hooks")]
+impl Vertex {
+    pub fn vh_new(loc: DVec3, dual: [usize; 3], radius2: f64) -> Self {
+        Vertex { loc, dual, radius2 }
+    }
+    pub fn vh_radius2(&self) -> f64 {
+        self.radius2
+    }
+    pub fn vh_from_dual(
+        i: usize,
+        j: usize,
+        k: usize,
+        half_spaces: &[HalfSpace],
+        gen_loc: DVec3,
+        dimensionality: Dimensionality,
+    ) -> Self {
+        Self::from_dual(i, j, k, half_spaces, gen_loc, dimensionality)
+    }
+}
+
+#[cfg(feature = "verif-hooks")]
+impl ConvexCell<WithoutFaces> {
+    pub fn vh_new(
+        loc: DVec3,
+        idx: usize,
+        clipping_planes: Vec<HalfSpace>,
+        vertices: Vec<Vertex>,
+        dimensionality: Dimensionality,
+    ) -> Self {
+        Self::new(loc, idx, clipping_planes, vertices, dimensionality)
+    }
+    pub fn vh_init(loc: DVec3, idx: usize, boundary: &crate::verif_hooks::Boundary) -> Self {
+        Self::init(loc, idx, &boundary.0)
+    }
+    pub fn vh_build(
+        loc: DVec3,
+        idx: usize,
+        generators: &[Generator],
+        nearest_neighbours: Box<dyn Iterator<Item = (usize, Option<DVec3>)> + '_>,
+        boundary: &crate::verif_hooks::Boundary,
+    ) -> Self {
+        Self::build(loc, idx, generators, nearest_neighbours, &boundary.0)
+    }
+    pub fn vh_clip_by_plane(
+        &mut self,
+        p: HalfSpace,
+        generators: &[Generator],
+        boundary: &crate::verif_hooks::Boundary,
+    ) {
+        self.clip_by_plane(p, generators, &boundary.0)
+    }
+    pub fn vh_compute_boundary(boundary: &mut SimpleCycle, vertices: &mut [Vertex]) {
+        Self::compute_boundary(boundary, vertices)
+    }
+    pub fn vh_update_safety_radius(&mut self) {
+        self.update_safety_radius()
+    }
+    pub fn vh_sort_face_vertices(&self, vert_idx: &mut [usize], clipping_plane_idx: usize) {
+        self.sort_face_vertices(vert_idx, clipping_plane_idx)
+    }
+}
+
+#[cfg(feature = "verif-hooks")]
+impl<M: ConvexCellMarker + 'static> ConvexCell<M> {
+    pub fn vh_safety_radius(&self) -> f64 {
+        self.safety_radius
+    }
+    pub fn vh_dimensionality(&self) -> Dimensionality {
+        self.dimensionality
+    }
+    pub fn vh_boundary_cycle(&self) -> &SimpleCycle {
+        &self.boundary
+    }
+    /// The oriented tetrahedra (plane index, base triangle) of the decomposition, in order.
+    pub fn vh_decompose(&self) -> Vec<(usize, [DVec3; 3])> {
+        self.decompose().map(|tet| (tet.plane_idx, tet.vertices)).collect()
+    }
+}
